@@ -135,7 +135,7 @@ class Shapes:
                 if len(hc) == 1 and any(it['name'] == 'Type' and it['value'] == 'compact::Compact<T>' for it in hc[0]['items']):
                     return ('adt', 'compact::Compact', [inner])
             if tname(trait) == 'EncodeAsRef' and t[3] == 'RefType':
-                ea = self.facts.impls_of('EncodeAsRef')
+                ea = [i for i in self.facts.impls_of('EncodeAsRef') if i['self'].startswith('compact::Compact<')]
                 if inner[0] == 'adt' and inner[1] == 'compact::Compact' and len(ea) == 1 and any(
                         it['name'] == 'RefType' and it['value'] == "compact::CompactRef<'a, T>" for it in ea[0]['items']):
                     return ('adt', 'compact::CompactRef', [self.normalize(inner[2][0])])
